@@ -14,9 +14,10 @@ LEVEL = "exploration"
 RULE = (
     "generated (base forecaster: naive / trend / transformed-target pipeline with nested "
     "names / multiplexer; parameter grids incl. lists of dicts with different keys, or "
-    "distributions with n_iter and random_state; splitter; series; loss and greater-is-better "
+    "distributions with n_iter and random_state; splitter; series scaled by 1e-4..1e4; loss and greater-is-better "
     "metrics; refit on/off; evaluation strategy); oracle = sklearn's ParameterGrid / "
-    "ParameterSampler candidates, an independent evaluate() per candidate, best index in the "
+    "ParameterSampler candidates, an independent evaluate() per candidate whose scores are "
+    "recomputed with the plain metric function written in the harness, best index in the "
     "metric's direction, refit delegation vs a directly constructed forecaster, NotFittedError "
     "without refit. non-trivial = >= 3 candidates with pairwise different scores; distinct = "
     "distinct JSON of the case"
